@@ -12,6 +12,7 @@ add("C17", "checks/c17_blocks.c", ["default-asan", "default-plain", "c89-plain",
     "without assertions. evaluations = scripts (queries) executed; distinct_nontrivial = distinct (type, format, count, first "
     "8 element values) of non-empty arrays, (length, first 64 bytes) of blocks, (length, split) of streams, header lengths",
     exhaustive=dict(quick=False, thorough=False),
+    rule_more="arrays windowed at an element offset (misaligned); header-only lengths behind a delimiter; payloads of 65535..1000000 bytes in one call; flavours c89, os, c89os; decoy context",
     technique="differential runtime monitor: captured write-callback bytes of the real result functions vs an independent block "
               "encoder (header digits by % and /, element bytes by shifts from the element values, never from the host "
               "representation); item accounting observed through the delimiter of the next result of the same response; "
